@@ -4,6 +4,7 @@ package interp
 // symbolic values, deterministic goroutines, lazy package initialisation).
 
 import (
+	"os"
 	"fmt"
 	"go/token"
 	"go/types"
@@ -431,10 +432,10 @@ func runFrame(fr *frame) {
 			// A Go runtime error inside the engine while executing target code: usually the
 			// image of a target runtime error (nil map write, bad type assertion, nil deref).
 			r = re.Error()
-			if fr.i.mode&EnableTracing != 0 {
+			if fr.i.mode&EnableTracing != 0 || os.Getenv("SYMGO_DEBUG") == "rt" {
 				buf := make([]byte, 4096)
 				buf = buf[:runtime.Stack(buf, false)]
-				fmt.Fprintf(tracew, "engine runtime error: %v\n%s\n", re, buf)
+				fmt.Fprintf(os.Stderr, "engine runtime error in %s: %v\n%s\n", fr.fn, re, buf)
 			}
 		}
 		fr.panicking = true
